@@ -106,3 +106,44 @@ Fixpoint extract_loop (fuel : nat) (s : list N) : option (list N) :=
    one match, so length s + 1 rounds always suffice *)
 Definition extract_spec (s : list N) : option (list N) :=
   extract_loop (S (length s)) s.
+
+(* ------------------------------------------------------------------ which label a meta element declares
+   (the wording of property C19, after WHATWG "a start tag whose tag name is
+   meta", steps 1-2 without the encoding lookup / confidence tests):
+   the charset attribute's value if there is one; otherwise, if http-equiv is
+   an ASCII case-insensitive match for content-type and there is a content
+   attribute, the result of the extraction algorithm on it. *)
+Fixpoint str_eqb (a b : list N) : bool :=
+  match a, b with
+  | [], [] => true
+  | x :: a', y :: b' => (x =? y) && str_eqb a' b'
+  | _, _ => false
+  end.
+
+Fixpoint ci_match (a b : list N) : bool :=
+  match a, b with
+  | [], [] => true
+  | x :: a', y :: b' => ci_eq x y && ci_match a' b'
+  | _, _ => false
+  end.
+
+(* value of the first attribute with the given name *)
+Fixpoint attribute (attrs : list (list N * list N)) (name : list N) : option (list N) :=
+  match attrs with
+  | [] => None
+  | (n, v) :: rest => if str_eqb n name then Some v else attribute rest name
+  end.
+
+Definition w_http_equiv : list N := [104; 116; 116; 112; 45; 101; 113; 117; 105; 118].
+Definition w_content : list N := [99; 111; 110; 116; 101; 110; 116].
+Definition w_content_type : list N := [99; 111; 110; 116; 101; 110; 116; 45; 116; 121; 112; 101].
+
+Definition meta_label_spec (attrs : list (list N * list N)) : option (list N) :=
+  match attribute attrs word_charset with
+  | Some v => Some v
+  | None =>
+    match attribute attrs w_http_equiv, attribute attrs w_content with
+    | Some h, Some c => if ci_match h w_content_type then extract_spec c else None
+    | _, _ => None
+    end
+  end.
